@@ -44,12 +44,15 @@ Inductive ev :=
 | Shutdown (t : N)
 | AdvanceTo (t : N)
 | Attach (p : name) (hasv : bool) (t : N)
-| Incoming (k : N) (n : name) (has_params : bool) (sig : N) (digest_ok : bool) (v : N) (t : N).
+| Incoming (k : N) (n : name) (has_params : bool) (sig : N) (digest_ok : bool) (v : N) (t : N)
+(* the application replaces its application-wide Interest validator (legacy: app.int_validator := ...):
+   own = true: by a validator of its own (its verdict on an Interest k is k_verdict); false: back to the library default *)
+| SetDefault (own : bool) (t : N).
 
 Definition ev_time (e : ev) : N :=
   match e with
   | Express _ _ _ _ _ _ t | Await _ t | Data _ _ _ t | Nack _ _ _ t | VDone _ _ t | Cancel _ t
-  | Shutdown t | AdvanceTo t | Attach _ _ t | Incoming _ _ _ _ _ _ t => t
+  | Shutdown t | AdvanceTo t | Attach _ _ t | Incoming _ _ _ _ _ _ t | SetDefault _ t => t
   end.
 
 (* verdicts.  V2 (types.ValidResult): 0 FAIL 1 TIMEOUT 2 SILENCE 3 PASS 4 ALLOW_BYPASS; 5 = the validator raised
@@ -121,22 +124,33 @@ Record inc := mkInc { k_id : N; k_name : name; k_params : bool; k_sig : N; k_dig
 Definition plain (k : inc) : bool := negb k.(k_params) && (k.(k_sig) =? 0).
 Definition signed (k : inc) : bool := negb (k.(k_sig) =? 0).
 
-(* the validator in force on a route accepted the Interest.
-   [route_validator] = Some true: the route has its own validator (its verdict is k_verdict);
-   V2: no validator means rejection.  V1: the application-wide int_validator, by default sha256_digest_checker
+(* Which validator is in force for an Interest dispatched to a route, after the history [h]:
+   the route's own validator if it was attached with one; otherwise, in the legacy front-end, the application-wide
+   validator AS IT IS WHEN THE INTEREST IS DISPATCHED ([default_of h] = the last SetDefault of the history; a later
+   replacement applies to the routes that already exist); the current front-end has no application-wide validator.
+   [in_force ...] = true: a validator supplied by the application is in force (its verdict on k is k_verdict);
+   false: none is (V2: rejection; V1: the library default sha256_digest_checker). *)
+Definition default_of (h : list (tie * ev)) : bool :=
+  fold_left (fun d x => match snd x with SetDefault own _ => own | _ => d end) h false.
+Definition in_force (fe : frontend) (route_has_validator : bool) (app_default_own : bool) : bool :=
+  route_has_validator || match fe with V1 => app_default_own | V2 => false end.
+
+(* the validator in force accepted the Interest.
+   [own] = true: it is a validator supplied by the application (route or application-wide; its verdict is k_verdict);
+   V2: no validator means rejection.  V1: the library default sha256_digest_checker
    (signature class 2 = DigestSha256 with a wrong value is the only thing it rejects). *)
-Definition validator_accepts (fe : frontend) (has_route_validator : bool) (k : inc) : bool :=
+Definition validator_accepts (fe : frontend) (own : bool) (k : inc) : bool :=
   match fe with
-  | V2 => has_route_validator && pass V2 k.(k_verdict)
-  | V1 => if has_route_validator then pass V1 k.(k_verdict) else negb (k.(k_sig) =? 2)
+  | V2 => own && pass V2 k.(k_verdict)
+  | V1 => if own then pass V1 k.(k_verdict) else negb (k.(k_sig) =? 2)
   end.
 
 (* C05: an Interest with parameters or a signature is dropped unless its digest is right and reaches the handler
    only after the validator in force accepted it: every such Interest in V2, the signed ones in V1 *)
-Definition may_deliver (fe : frontend) (has_route_validator : bool) (k : inc) : bool :=
+Definition may_deliver (fe : frontend) (own : bool) (k : inc) : bool :=
   plain k ||
   (k.(k_digest_ok) &&
    match fe with
-   | V2 => validator_accepts V2 has_route_validator k
-   | V1 => negb (signed k) || validator_accepts V1 has_route_validator k
+   | V2 => validator_accepts V2 own k
+   | V1 => negb (signed k) || validator_accepts V1 own k
    end).
